@@ -403,11 +403,15 @@ namespace
     Geometry::MeshAtlas<Mesh_> atlas;
     std::unique_ptr<NodeType> base = NodeType::make_unique(nullptr, &atlas);
     reader.parse(*base, atlas, nullptr);
-    const int lvl = int(sim::cfg_int("dx_level", 0, dim == 3 ? 1 : 2));
+    // mostly tiny meshes (every rank count up to one cell per patch); one workload in six is large - patches of several
+    // hundred cells and vertices, where per-entity counters and buffers of the graph code leave their small range
+    const bool large = sim::cfg_int("dx_large", 0, 5) == 0;
+    const int lvl = large ? (dim == 3 ? 3 : 5) : int(sim::cfg_int("dx_level", 0, dim == 3 ? 1 : 2));
     for(int l = 0; l < lvl; ++l) base = base->refine_unique(Geometry::AdaptMode::chart);
     const Index ne = base->get_mesh()->get_num_elements();
     static const int nps[8] = {1, 1, 2, 3, 4, 7, 16, 1000};
     Index np = Index(nps[sim::cfg_int("dx_np_idx", 0, 7)]);
+    if(large) { np = Index(2 + sim::cfg_int("dx_large_np", 0, 3)); sim::probe("direct_extract_with_large_patches"); }
     if(np > ne) np = ne;
     const unsigned long long seed = (unsigned long long)sim::cfg_int("dx_seed", 0, 1 << 30);
     const std::vector<Index> owner = seeded_owner(ne, np, seed, int(sim::cfg_int("dx_mode", 0, 2)));
@@ -434,7 +438,7 @@ namespace
     std::vector<std::unique_ptr<NodeType>> patches(np);
     std::vector<std::vector<int>> neigh(np);
     for(Index r = 0; r < np; ++r) patches[r] = base->extract_patch(neigh[r], graph, int(r));
-    const int refinements = int(sim::cfg_int("dx_refine", 0, dim == 3 ? 1 : 2));
+    const int refinements = large ? 0 : int(sim::cfg_int("dx_refine", 0, dim == 3 ? 1 : 2));
     std::map<Key, int> cell_count;
     for(int rl = 0; rl <= refinements; ++rl)
     {
